@@ -57,7 +57,7 @@ namespace TAO_PEGTL_NAMESPACE::internal
          auto m = in.template auto_rewind< rewind_mode::required >();
 
          if( Control< Head >::template match< A, rewind_mode::optional, Action, Control >( in, st... ) ) {
-            using input_t = memory_input< ParseInput::tracking_mode_v, typename ParseInput::eol_t, typename ParseInput::source_t >;
+            using input_t = memory_input< ParseInput::tracking_mode_v, typename ParseInput::eol_t, const typename ParseInput::source_t& >;  // refers to, rather than copies, the source: positions and parse tree nodes created inside must not dangle
             const auto make_begin = [ & ]() {
                if constexpr( std::is_same_v< typename ParseInput::inputerator_t, const char* > ) {
                   const auto p = in.position( m.inputerator() );  // NOTE: Not efficient with lazy inputs.
